@@ -57,6 +57,8 @@ def run_plan(chk, variant, plan, seed, st):
         chk.seen(d["cases"])
         for c in d["classes"]:
             chk.distinct.add("%s:%s" % (variant if variant in ("miri",) else "n", c))
+        for x in d.get("samples", [])[:1]:
+            chk.sample({"build": variant, "mode": mode, "observed": x}, limit=6)
         for b in d["bad"]:
             sig, msg = b.split("|", 1)
             chk.violation(sig, "[%s] %s" % (variant, msg), {"variant": variant, "args": ["roundtrip"] + list(j)})
@@ -85,8 +87,6 @@ def main():
     chk.extra["cases_by_build_and_mode"] = st
     chk.extra["exhaustive_part"] = "INTEGER -2^23..2^23-1 (every value of 1..3 content octets)"
     chk.floor("exhaustive_ints", st.get("rel", {}).get("ints-exh", 0), 1 << 24)
-    chk.sample({"value": -32767, "encoding": "02 02 80 01", "decoded_back": -32767})
-    chk.sample({"value": "i64::MIN", "encoding": "02 08 80 00 00 00 00 00 00 00"})
     sys.exit(chk.finish())
 
 
